@@ -50,6 +50,11 @@ func OnImplements(t reflect.Type, iface reflect.Type, input reflect.Value, op Tr
 	}
 
 	if v.IsNil() {
+		if wasPointer {
+			// t had its pointer stripped above: an unset pointer
+			// field stays a nil pointer of the original type.
+			return reflect.Zero(reflect.PtrTo(t)), nil
+		}
 		return reflect.Zero(t), nil
 	}
 
